@@ -123,7 +123,7 @@ def make(cfg_in):
             m = c.get_model()
             cs = scenario.concretize_scenario(s, m, extra=[list(r) for r in res.rows])
             got = [tuple(r) for r in cs.pop('_extra')]
-            validate_against_real(cs, res.columns, got)
+            validate_against_real(cs, res.columns, got, props)
             tags.append('validated')
         sample = None
         if _COUNTER[0] <= 3:
@@ -151,26 +151,42 @@ def _brief(cs):
             'L': cs['L'], 'R': cs['R']}
 
 
-def validate_against_real(cs, columns, model_rows):
+def validate_against_real(cs, columns, model_rows, props=None):
     """Trace validation: the same concrete inputs through real pandas / real tokenizer must give
-    the rows the symbolic run produced (under the same model).  Disagreement = harness error."""
-    from engine.pathsym import pdmodel as _pm
+    the rows the symbolic run produced (under the same model).  If the real stack misbehaves with
+    respect to the property itself (raises, or its result fails the oracle) that is a counterexample
+    (it is replayed like any other); a mere difference between model and real stack is a harness
+    error (inconclusive)."""
     seq = {}
     if cs['n_jobs'] not in (1,):
         # keep it fast: real joblib process pools are exercised by replays only
         for key, val in repo.model_bindings().items():
             if key[1] in ('Parallel', 'delayed'):
                 seq[key] = val
+
+    def as_violation(msg):
+        return Violation('real stack: ' + msg, {'prop': 'CRASH', 'clause': 'call-succeeds', 'msg': msg,
+                                                'harness': 'h_join', 'scenario': cs})
     try:
         with repo.patched(seq):
             real, tok, _ = scenario.run_real(cs)
     except Exception as e:
-        raise Inconclusive('trace validation: real stack raised %s: %s on %r' % (
-            type(e).__name__, e, cs))
+        raise as_violation('valid call raised %s: %s' % (type(e).__name__, e))
     rr = oracle.Result.of(real)
     a = scenario.norm_rows(oracle.Result(columns, model_rows))
     b = scenario.norm_rows(rr)
     if list(rr.columns) != list(columns) or a != b:
+        w = scenario.ConcreteWorld()
+        cst = scenario.concrete_tables(cs)
+        if cs.get('filter') == 'OverlapFilter' or cs['entry'] == 'overlap_join':
+            viols = oracle.check_overlap_filter_tables(cst, w, rr)
+        else:
+            viols = oracle.check_join_output(cst, w, rr)
+        for (p, clause, msg) in viols:
+            if props is None or p in props:
+                raise Violation('real stack: %s/%s: %s' % (p, clause, msg),
+                                {'prop': p, 'clause': clause, 'msg': msg, 'harness': 'h_join',
+                                 'scenario': cs})
         raise Inconclusive('trace validation: model and real stack disagree\n scenario=%r\n '
                            'model cols=%r rows=%r\n real cols=%r rows=%r'
                            % (cs, columns, a, list(rr.columns), b))
